@@ -137,6 +137,13 @@ class CylindricalExpansion(ExactSolver):
         if self.alpha_2 < 0:
             raise ValueError('Alpha for HE2 must be >= 0')
 
+        if self.r_1 <= self.alpha_1 / self.D_CJ_1:
+            raise ValueError('Inner radius of HE1 must be > alpha_1 / D_CJ_1')
+
+        if self.r_2 <= self.alpha_2 / self.D_CJ_2:
+            raise ValueError('Radius of interface between HE1 and HE2 ' +
+                             'must be > alpha_2 / D_CJ_2')
+
     def _run(self, xylist, t):
 
         veldev_1 = self.alpha_1 / self.D_CJ_1
